@@ -209,6 +209,7 @@ type World struct {
 	prevLog    *slog.Logger
 	seq        int
 	LogLevel   slog.Level
+	extra      []*Proxy
 }
 
 type WorldOpt struct {
@@ -623,13 +624,23 @@ func (ft *FakeTarget) defaultHandle(c net.Conn, br *bufio.Reader, req *http.Requ
 		ft.end(rec, "aborted")
 		return false
 	}
-	_, err := fmt.Fprintf(c, "HTTP/1.1 200 OK\r\nContent-Length: %d\r\nX-Target: %s\r\n\r\n%s", len(ft.Name), ft.Name, ft.Name)
+	// the default answer echoes what matters for behavioural snapshots (C06/C11)
+	_, err := fmt.Fprintf(c, "HTTP/1.1 200 OK\r\nContent-Length: %d\r\nX-Target: %s\r\nX-Echo-Uri: %s\r\nX-Echo-Xff: %s\r\nX-Echo-Xfp: %s\r\nX-Echo-Len: %d\r\n\r\n%s",
+		len(ft.Name), ft.Name, req.RequestURI, strings.Join(req.Header.Values("X-Forwarded-For"), "|"), strings.Join(req.Header.Values("X-Forwarded-Proto"), "|"), len(body), headless(req.Method, ft.Name))
 	if err != nil {
 		ft.end(rec, "writeerr")
 		return false
 	}
 	ft.end(rec, "done")
 	return true
+}
+
+// headless: a HEAD response carries no body.
+func headless(method, body string) string {
+	if method == "HEAD" {
+		return ""
+	}
+	return body
 }
 
 // Snapshot copies of the logs (safe while the world runs).
@@ -655,10 +666,49 @@ func (ft *FakeTarget) ReqLog() []ReqRec {
 
 // ---------- clients ----------
 
+// Proxy is an additional proxy instance (router + full handler chain + listeners) living in
+// the same world as the primary one: used to compare a restored proxy with the original.
+type Proxy struct {
+	w         *World
+	Dir       string
+	StatePath string
+	Router    *server.Router
+	Srv       *server.Server
+	HS        *http.Server
+	ln, tlsLn *memListener
+}
+
+// NewProxy creates a second proxy whose state file lives in dir.
+func (w *World) NewProxy(dir string) *Proxy {
+	cfg := &server.Config{AlternateConfigDir: dir, HttpPort: 80, HttpsPort: 443}
+	p := &Proxy{w: w, Dir: dir, StatePath: cfg.StatePath()}
+	p.Router = server.NewRouter(cfg.StatePath())
+	p.Srv = server.NewServer(cfg, p.Router)
+	p.ln, p.tlsLn = newMemListener(80), newMemListener(443)
+	p.HS = &http.Server{Handler: server.VerifHandler(p.Srv)}
+	go p.HS.Serve(p.ln)
+	go p.HS.Serve(tls.NewListener(p.tlsLn, &tls.Config{GetCertificate: p.Router.GetCertificate, NextProtos: []string{"http/1.1"}}))
+	w.mu.Lock()
+	w.extra = append(w.extra, p)
+	w.mu.Unlock()
+	return p
+}
+
+// Primary returns the world's own proxy in Proxy form.
+func (w *World) Primary() *Proxy {
+	return &Proxy{w: w, Dir: w.Dir, StatePath: w.StatePath, Router: w.Router, Srv: w.Srv, HS: w.HS, ln: w.ln, tlsLn: w.tlsLn}
+}
+
+func (p *Proxy) Do(r Req) *Resp { return p.w.doOn(p.ln, p.tlsLn, r) }
+
 func (w *World) connect(useTLS bool, sni string) (net.Conn, error) {
-	ln := w.ln
+	return w.connectOn(w.ln, w.tlsLn, useTLS, sni)
+}
+
+func (w *World) connectOn(plain, tlsLn *memListener, useTLS bool, sni string) (net.Conn, error) {
+	ln := plain
 	if useTLS {
-		ln = w.tlsLn
+		ln = tlsLn
 	}
 	if ln == nil {
 		return nil, errors.New("no listener")
@@ -716,14 +766,16 @@ func (r Req) bytes() []byte {
 }
 
 // Do sends one request and waits for its complete response (or failure).
-func (w *World) Do(r Req) *Resp {
+func (w *World) Do(r Req) *Resp { return w.doOn(w.ln, w.tlsLn, r) }
+
+func (w *World) doOn(plain, tlsLn *memListener, r Req) *Resp {
 	resp := &Resp{ID: r.ID, Sent: w.Now(), Status: -1}
 	defer func() {
 		w.mu.Lock()
 		w.Resps = append(w.Resps, resp)
 		w.mu.Unlock()
 	}()
-	c, err := w.connect(r.TLS, r.SNI)
+	c, err := w.connectOn(plain, tlsLn, r.TLS, r.SNI)
 	if err != nil {
 		resp.Err, resp.Done = err.Error(), w.Now()
 		return resp
@@ -886,6 +938,19 @@ func (w *World) Close() {
 	time.Sleep(10 * time.Millisecond)
 	if w.HS != nil {
 		w.HS.Close()
+	}
+	for _, p := range w.extra {
+		func() {
+			defer func() { recover() }()
+			for name := range p.Router.ListActiveServices() {
+				func() {
+					defer func() { recover() }()
+					p.Router.ResumeService(name)
+					p.Router.RemoveService(name)
+				}()
+			}
+		}()
+		p.HS.Close()
 	}
 	w.mu.Lock()
 	conns := w.conns
